@@ -1,5 +1,6 @@
 #!/bin/bash
-# Prepares an isolated development copy of /verif (without build output) under /tmp/vw_<name>
+# Prepares an isolated development copy of /verif under /tmp/vw_<name>, with a warm copy of the
+# dependency build output so that the first build there only recompiles the harness crate.
 set -e
 n=$1
 d=/tmp/vw_$n
@@ -7,4 +8,6 @@ rm -rf "$d"
 mkdir -p "$d"
 rsync -a --exclude work --exclude .git --exclude evidence /verif/ "$d"/
 mkdir -p "$d/work" "$d/evidence"
+if [ -d /verif/work/target ]; then cp -a /verif/work/target "$d/work/target"; fi
+if [ -d /verif/work/pki ]; then cp -a /verif/work/pki "$d/work/pki"; fi
 echo "$d"
